@@ -354,16 +354,24 @@ func c14Run(srv *c14Server, c c14Case) (res c14Result) {
 			var ch gossh.Channel
 			var reqs <-chan *gossh.Request
 			var err error
-			if !c14Within(5*time.Second, func() { ch, reqs, err = cn.client.OpenChannel("session", nil) }) || err != nil {
+			onServed := cn.channel != nil && rng.Intn(2) == 0
+			if onServed {
+				// on the channel that already has a shell: one more shell request first, then the unknown request and the burst
+				ch = cn.channel
+				c14Within(5*time.Second, func() { ch.SendRequest("shell", true, nil) })
+			}
+			if !onServed && (!c14Within(5*time.Second, func() { ch, reqs, err = cn.client.OpenChannel("session", nil) }) || err != nil) {
 				outcome = fmt.Sprintf("no session channel: %v", err)
 			} else {
-				go gossh.DiscardRequests(reqs)
+				if !onServed {
+					go gossh.DiscardRequests(reqs)
+				}
 				n := []int{0, 3, 20, 40}[rng.Intn(4)]
 				ch.SendRequest([]string{"pty-req", "env", "exec", "subsystem"}[rng.Intn(4)], false, []byte{0, 0, 0, 1, 'x'})
 				for k := 0; k < n; k++ {
 					ch.SendRequest("env", false, []byte{0, 0, 0, 1, 'a', 0, 0, 0, 1, 'b'})
 				}
-				outcome = fmt.Sprintf("unknown request followed by %d more", n)
+				outcome = fmt.Sprintf("unknown request followed by %d more (channel with shell(s): %v)", n, onServed)
 			}
 			time.Sleep(time.Duration(rng.Intn(20)) * time.Millisecond)
 			cn.tcp.Conn.Close()
